@@ -110,7 +110,7 @@ end CV.Props.C16
 namespace CV.Props.C16
 
 /-- (facts, regenerated from the source on every run) **The source text the model transcribes is the text of the
-    current source**: the bodies (comments and layout removed) of the 46 functions the model behind C16 was written from and
+    current source**: the bodies (comments and layout removed) of the 45 functions the model behind C16 was written from and
     validated against.  Any edit of one of them breaks this theorem at build time; the check then searches with the
     property's own oracles for a failing input, and reports `no-failing-input-found` if it finds none: the model then
     has to be re-validated against the new text (and this block regenerated). -/
@@ -137,7 +137,6 @@ theorem source_decision_logic : CV.Facts.logicC16 = [
   "query.NotCriteria.Or: { return or(c, other) }", 
   "query.Query.MatchFunc: { return q.Where(newCriteria(FunctionOp, \"\", p)) }", 
   "query.Query.Where: { newQuery := q.copy() newQuery.criteria = c return newQuery }", 
-  "query.Query.copy: { return &Query{ collection: q.collection, criteria: q.criteria, limit: q.limit, skip: q.skip, sortOpts: q.sortOpts, } }", 
   "query.Query.satisfy: { if q.criteria == nil { return true } return q.criteria.Satisfy(doc) }", 
   "query.UnaryCriteria.And: { return and(c, other) }", 
   "query.UnaryCriteria.Not: { return not(c) }", 
